@@ -88,6 +88,34 @@ static void binary_cases(Harness &H, const std::string &d0, const Grid<S> &g, si
     }
 }
 
+// same operations with the second operand on an EQUAL grid held in a distinct object (one generic pattern pair)
+template <size_t oa, size_t ob>
+static void copygrid_cases(Harness &H, const std::string &d0, const Grid<S> &g, size_t n) {
+  Grid<S> gcopy = mkgrid<S>(gridpts(g));
+  for (Win a : windows(n))
+    for (Win b : windows(n))
+      for (int op = 0; op < 4; op++) {
+        static const char *opn[] = {"add", "sub", "mul", "iadd"};
+        if (op == 3 && ob > oa) continue;
+        if (!H.take()) continue;
+        size_t Ka = a.nint() * (oa + 1), Kb = b.nint() * (ob + 1);
+        H.begin(d0 + ";o" + std::to_string(oa) + "," + std::to_string(ob) + ";" + wstr(a) + ";" + wstr(b) + ";" + opn[op] + ";b-on-equal-grid-copy");
+        auto sa = mkspline_p<S, oa>(g, a, Ka ? Ka + 1 : 0);
+        auto sb = mkspline_p<S, ob>(gcopy, b, Kb ? Kb + 2 : 0);
+        RefPP ra = alpha(sa), rb = alpha(sb);
+        Outcome oc = attempt([&] {
+          if (op == 0) same_fn(H, "add", sa + sb, radd(ra, rb), "a+b");
+          else if (op == 1) same_fn(H, "sub", sb - sa, rsub(rb, ra), "b-a");
+          else if (op == 2) same_fn(H, "mul", sb * sa, rmul(ra, rb), "b*a");
+          else if constexpr (ob <= oa) { Spline<S, oa> t(sa); t += sb; same_fn(H, "iadd", t, radd(ra, rb), "a+=b"); }
+        });
+        if (oc.threw()) H.fail(std::string(opn[op]) + ":threw", "operation on equal grids held in distinct objects threw " + oc.str());
+        H.cls("copygrid");
+        if (!ra.zero() && !rb.zero()) H.nontriv();
+        H.end();
+      }
+}
+
 // ---------------- unary / scalar operations, self operations ------------------
 template <size_t o>
 static void unary_cases(Harness &H, const std::string &d0, const Grid<S> &g, size_t n) {
@@ -418,7 +446,7 @@ template <size_t OMAX>
 static void per_grid(Harness &H, const std::string &d0, const Grid<S> &g, size_t n, bool big) {
   auto pairs = [&](auto OA) {
     constexpr size_t oa = decltype(OA)::value;
-    auto inner = [&](auto OB) { binary_cases<oa, decltype(OB)::value>(H, d0, g, n); assign_cases<oa, decltype(OB)::value>(H, d0, g, n); };
+    auto inner = [&](auto OB) { binary_cases<oa, decltype(OB)::value>(H, d0, g, n); copygrid_cases<oa, decltype(OB)::value>(H, d0, g, n); assign_cases<oa, decltype(OB)::value>(H, d0, g, n); };
     inner(std::integral_constant<size_t, 0>{});
     inner(std::integral_constant<size_t, 1>{});
     inner(std::integral_constant<size_t, 2>{});
